@@ -233,6 +233,7 @@ Lemma certificate_sound : forall tol I,
      <= Qabs p * (tol * (1 + rabs (nth q (i_grows I) []) ones))).
 Proof.
   intros tol I H. unfold check in H.
+  apply andb_prop in H. destruct H as [H Hrel].
   apply andb_prop in H. destruct H as [H Hgeo].
   apply andb_prop in H. destruct H as [H Hgrad].
   apply andb_prop in H. destruct H as [Hshape Hdiv].
@@ -363,6 +364,7 @@ Lemma div_u_on_instance_3d : forall tol I c A b,
   <= tsum 0 (map Qabs (theta3 A b)) (geo_eps3 tol I c).
 Proof.
   intros tol I c A b H Hpl Hnd Hc. unfold check in H.
+  apply andb_prop in H. destruct H as [H Hrel].
   apply andb_prop in H. destruct H as [_ Hgeo]. rewrite Hpl in Hgeo.
   rewrite div_u_error3. apply tsum_abs_bound. intros m Hm.
   assert (G : forall i j, (i < 3)%nat -> (j < 3)%nat ->
@@ -400,6 +402,7 @@ Lemma div_u_on_instance_2d : forall tol I c a00 a01 a10 a11 b0 b1,
   <= tsum 0 (map Qabs [a00; a01; a10; a11; b0; b1]) (geo_eps2 tol I c).
 Proof.
   intros tol I c a00 a01 a10 a11 b0 b1 H Hpl Hnd Hc. unfold check in H.
+  apply andb_prop in H. destruct H as [H Hrel].
   apply andb_prop in H. destruct H as [_ Hgeo]. rewrite Hpl in Hgeo.
   rewrite div_u_error2. apply tsum_abs_bound. intros m Hm.
   assert (G : forall i j, (i < 2)%nat -> (j < 2)%nat ->
@@ -479,3 +482,25 @@ Definition ex_nonplanar : inst :=
 [(0%nat, ((-1) # 16))]; [(0%nat, ((-15) # 16))]; [(0%nat, ((-1) # 16))]; [(0%nat, ((-9) # 128))];
 [(0%nat, ((-9) # 128))]; [(0%nat, ((-9) # 8))]; [(0%nat, ((-1) # 16))]; [(0%nat, (7 # 128))];
 [(0%nat, ((-15) # 16))]]).
+
+(* the purely relative certificates *)
+Lemma relative_certificate : forall tol I,
+  check tol I = true ->
+  (forall c m, (c < i_nc I)%nat -> (m < nparam I)%nat ->
+     Qabs (rdot (nth c (i_drows I) []) (basis I m) - div_target I c m)
+     <= tol * (rabs (nth c (i_drows I) []) (basis I m) + Qabs (div_target I c m)))
+  /\ (forall q, (q < i_nd I * i_nf I)%nat ->
+     Qabs (rdot (nth q (i_grows I) []) ones - grad_target I q)
+     <= tol * (rabs (nth q (i_grows I) []) ones + Qabs (grad_target I q))).
+Proof.
+  intros tol I H. unfold check in H. apply andb_prop in H. destruct H as [_ H].
+  unfold rel_ok in H. apply andb_prop in H. destruct H as [Hd Hg]. split.
+  - intros c m Hc Hm. rewrite forallb_forall in Hd.
+    assert (Hin : In c (seq 0 (i_nc I))) by (apply in_seq; lia).
+    specialize (Hd c Hin). rewrite forallb_forall in Hd.
+    assert (Him : In m (seq 0 (nparam I))) by (apply in_seq; lia).
+    specialize (Hd m Him). unfold nearr in Hd. apply Qle_bool_iff in Hd. exact Hd.
+  - intros q Hq. rewrite forallb_forall in Hg.
+    assert (Hin : In q (seq 0 (i_nd I * i_nf I))) by (apply in_seq; lia).
+    specialize (Hg q Hin). unfold nearr in Hg. apply Qle_bool_iff in Hg. exact Hg.
+Qed.
